@@ -31,6 +31,7 @@ func checkC07(c *Ctx) {
 	r.Rule("R07.4", "batch operations act on every iterated entry unconditionally and count once per entry", 9)
 	r.Rule("R07.5", "Write stores (value, copy of key, E=expireAt) replacing the slot on every path and returns nil", 3)
 	r.Rule("R07.6", "Load/Store wrappers preserve key and value", 2)
+	r.Rule("R07.7", "Walk steps over every shard, hands every iterated entry to the callback, goes on after a successful callback and counts it once (shared with C13 R13.3)", 3)
 	r.NotDecided = []string{"equality with a reference model over operation histories", "Go map / sync.Map semantics", "Walk visiting order"}
 	c.skipReadRule("R07.2")
 	for _, b := range backends {
@@ -42,6 +43,12 @@ func checkC07(c *Ctx) {
 	}
 	c.c07NoOp()
 	c.c07LoadStore()
+	for _, b := range backends {
+		b := b
+		c.borrow("C13", func() { c.c13Counts(b, nil) }, func(o *coreObl) (string, bool) {
+			return "R07.7", o.Rule == "R13.3" && strings.HasSuffix(o.Construct, ".Walk")
+		})
+	}
 	// "with any TTL option": the expiry stored by Write is expireAt(ctx) = now + the effective TTL (context TTL if non-zero,
 	// else the configured one, 0 for UnlimitedTTL), shared with C10
 	c.borrow("C10", func() {
@@ -627,6 +634,48 @@ func iterations(p *pw.Path) []*iterGroup {
 	return out
 }
 
+// overShards reports whether an iteration group is one step of a loop over the shard array of a sharded backend.
+func overShards(g *iterGroup) bool {
+	v := g.begin.Recv
+	for v != nil && (v.Kind == pw.KAddr || v.Kind == pw.KSlice || v.Kind == pw.KConv) {
+		v = v.Src
+	}
+	return v != nil && v.Kind == pw.KField && v.Field != nil && v.Field.Name() == "hashedBuckets"
+}
+
+// shardCoverage: a whole-collection operation of a sharded backend must examine the map of every shard it steps over (scan it, take
+// its length, or — when replaceOK — replace it by a fresh empty map); a shard stepped over without that keeps its entries out of the
+// operation. inFn restricts the check to loops of the named function (helpers inlined into it are checked by their own rules).
+func (c *Ctx) shardCoverage(rule, op string, paths []*pw.Path, replaceOK bool) (n int, ok bool) {
+	ok = true
+	seen := map[token.Pos]bool{}
+	for _, p := range paths {
+		for _, g := range iterations(p) {
+			if g.overData || !overShards(g) || strings.HasSuffix(g.begin.Frame.Top(), ".Len") && !strings.HasSuffix(op, ".Len") {
+				continue
+			}
+			n++
+			examined := false
+			for _, ev := range g.events {
+				if (ev.Kind == pw.EvMapIter || ev.Kind == pw.EvMapLen) && isShardData(ev) {
+					examined = true
+				}
+				if replaceOK && ev.Kind == pw.EvFieldWrite && ev.Field != nil && ev.Field.Name() == "data" && ev.Value != nil && ev.Value.Kind == pw.KAlloc && len(ev.Value.Elems) == 0 {
+					if _, isMap := ev.Value.Type.Underlying().(*types.Map); isMap {
+						examined = true
+					}
+				}
+			}
+			if !examined && !g.open && !seen[g.begin.Pos] {
+				seen[g.begin.Pos] = true
+				ok = false
+				c.R.Bad(rule, op, "shard-skipped", c.Pos(g.begin.Pos), "a step of the loop over the shards neither scans, measures nor replaces that shard's map: its entries are left out of the operation", shortTrace(p))
+			}
+		}
+	}
+	return n, ok
+}
+
 // c07Batch: R07.4.
 func (c *Ctx) c07Batch(b BK) {
 	r := c.R
@@ -651,6 +700,13 @@ func (c *Ctx) c07Batch(b BK) {
 				}
 			}
 			for _, g := range iterations(p) {
+				if s.op == "DeleteAll" && b.Sharded && !g.overData && overShards(g) {
+					for _, ev := range g.events {
+						if ev.Kind == pw.EvFieldWrite && ev.Field != nil && ev.Field.Name() == "data" && ev.Value != nil && ev.Value.Kind == pw.KAlloc && len(ev.Value.Elems) == 0 {
+							nIter++ // the shard's map is replaced by a fresh empty one
+						}
+					}
+				}
 				lenLoop := s.op == "Len" && b.Sharded
 				if !lenLoop && (!g.overData || !g.inner) {
 					continue
@@ -752,6 +808,11 @@ func (c *Ctx) c07Batch(b BK) {
 					r.Bad("R07.4", op, "notify-arg", c.Pos(cn[0].Pos), "the count passed to the notification is not the per-entry counter", shortTrace(p))
 					bad = true
 				}
+			}
+		}
+		if b.Sharded {
+			if _, ok := c.shardCoverage("R07.4", op, run.paths, s.op == "DeleteAll"); !ok {
+				bad = true
 			}
 		}
 		if nIter == 0 {
